@@ -498,8 +498,14 @@ def _contribution(ctx, f, S, pv, stmts, penv, acc_masks):
         for c in calls(st):
             if attr_tail(c) == "append" and len(c.args) == 1:
                 v = inline(c.args[0], env)
-                if U(v) == pv:
+                while isinstance(v, ast.Call) and call_name(v) in ("np.sort", "sorted", "np.asarray", "np.array") and len(v.args) == 1:
+                    v = v.args[0]          # the order of the kept rows is not this rule's concern
+                whole_idx = (f"np.flatnonzero({pv}.selection_vector)", f"np.arange({S}.size)[{pv}.selection_vector]", f"np.where({pv}.selection_vector)[0]",
+                             f"np.nonzero({pv}.selection_vector)[0]")
+                if U(v) == pv or U(v).replace(" ", "") in whole_idx:
                     out.append(("whole", None))
+                elif isinstance(v, ast.Call) and attr_tail(v) == "choice":
+                    out.append(("rows", v))
                 elif isinstance(v, ast.Call) and U(v.func) == "Plate" and len(v.args) == 2 and U(v.args[0]) == S:
                     m = v.args[1]
                     if isinstance(m, ast.Call) and U(m.func) == "np.isin" and len(m.args) == 2 and U(m.args[0]).replace(" ", "") == f"np.arange({S}.size)":
